@@ -392,6 +392,12 @@ func (o *orch) plan(scale float64) counts {
 			if thorough {
 				c.hot, c.hotRace = 200000, 30000
 			}
+			if os.Getenv("JMSIM_HOT_KINDS") == "" {
+				// shared state exists but no run shape reached it when probed
+				// sequentially (on the pinned tree: one read-only table of the
+				// syntax-tree printer): a quarter of the budget, over all shapes
+				c.hot, c.hotRace = c.hot/4, c.hotRace/4
+			}
 		}
 		c.hot = uint64(float64(c.hot) * scale)
 		c.hotRace = uint64(float64(c.hotRace) * scale)
